@@ -86,10 +86,13 @@ IDS = ["1790000000000000001", "1790000000000000002", "17900000000000000010", "hu
        "hub", "", "0", "00", "4711", "4711\n"]
 
 
-def mk(ops, foreign=False, sid=None, locid0="4711", rsync=False):
-    """sid None = the hub generates its DATAHUB_BACKUPID; foreign = location pre-filled with id file locid0 + files"""
+def mk(ops, foreign=False, sid=None, locid0="4711", rsync=False, bsl="", bslid=""):
+    """sid None = the hub generates its DATAHUB_BACKUPID; foreign = location pre-filled with id file locid0 + files;
+    bsl = configuration BACKUP_SOURCE_LOCATION: "" unset | "same" the store dir | "empty" an empty dir | "other" another
+    store's directory whose id file holds bslid.  The pinned validLocation reads the id of the OPEN store, so the model
+    does not depend on it (native mode)."""
     return {"ops": [dict(o) for o in ops], "foreign": foreign, "sid": sid, "locid0": locid0 if foreign else "",
-            "rsync": rsync}
+            "rsync": rsync, "bsl": bsl, "bslid": bslid if bsl == "other" else ""}
 
 
 def burst(rng_or_none, n, ds=0):
@@ -121,6 +124,13 @@ def witness_cases():
         mk([B, R, B], foreign=True, sid="", locid0="0"),
         mk([W(1, 0, 1), B, R, W(1, 0, 2), B], foreign=True, sid="", locid0=""),
         mk([B], foreign=True, sid="4711\n", locid0="4711"),
+        # BACKUP_SOURCE_LOCATION left over from the OLD store the pre-filled location belongs to / empty dir / same dir
+        mk([W(0, 1, 3), B, R, B, W(0, 2, 2), B], foreign=True, locid0="4711", bsl="other", bslid="4711"),
+        mk([B, B], foreign=True, sid="hub-b", locid0="hub-a", bsl="other", bslid="hub-a"),
+        mk([W(0, 1, 3), B, W(0, 2, 4), B, R, B], bsl="other", bslid="4711"),
+        mk([W(0, 1, 3), B, W(0, 2, 4), R, B], bsl="empty"),
+        mk([W(0, 1, 3), B, I("4711"), B, R, B], bsl="other", bslid="4711"),
+        mk([W(0, 1, 3), B, W(0, 2, 4), B], bsl="same"),
         # a writer commits while a run is in progress; then a quiet run
         mk([W(0, 1, 3), C(W(0, 2, 4), W(1, 0, 1)), B]),
         mk([W(0, 1, 3), B, W(0, 1, 4), C(W(0, 2, 4)), R, C(W(1, 3, 3), W(0, 2, 5, True)), B]),
@@ -189,10 +199,15 @@ def gen(rng, tier):
             ops = rand_hist(rng, 10, env=2, sid=sid)
             if not any(o["op"] == "b" for o in ops):
                 ops.append(B)
-            out.append(mk(ops, sid=sid))
+            bsl = rng.choice(["", "", "", "same", "empty", "other"])
+            out.append(mk(ops, sid=sid, bsl=bsl, bslid=rng.choice(IDS)))
         for _ in range(n_pre):      # pre-filled location, ids from the adversarial alphabet
             sid = rng.choice([None] + IDS)
-            out.append(mk(rand_hist(rng, 6, env=1, sid=sid) + [B], foreign=True, sid=sid, locid0=rand_id(rng, sid)))
+            loc0 = rand_id(rng, sid)
+            bsl = rng.choice(["", "", "same", "empty", "other", "other"])
+            bslid = loc0 if rng.chance(2, 3) else rng.choice(IDS)   # mostly: the store the location belongs to
+            out.append(mk(rand_hist(rng, 6, env=1, sid=sid) + [B, B], foreign=True, sid=sid, locid0=loc0,
+                          bsl=bsl, bslid=bslid))
     def drops(n):                   # dataset deletes, mostly followed by a restart before the next run
         for _ in range(n):
             ops = []
@@ -276,49 +291,8 @@ DIED = {"maxv": [], "cursor": [], "disk": [], "bres": [], "grew": [], "snap": No
         "restored": None, "hasrest": False, "richeq": False, "raweq": False, "sid": "", "locid": [], "touched": [], "sidv": [], "running": [], "diskraw": [], "post": []}
 
 
-_PRIVATE = {}
-
-
-def private_build():
-    """vlib.go_build writes build/verif_c20 and build/overlay_C20.json whatever VERIF_REPO is, so two checks running at
-    the same time against different trees (seedcheck in a scratch worktree + a check of /repo) overwrite each other's
-    driver: the check of /repo then runs the OTHER tree's code.  (That was the false alarm of 2026-10-01: the /repo
-    check executed the driver built from a seeded worktree.)  The driver that is actually run is therefore built here,
-    into a path unique to this process, and removed at exit."""
-    if "bin" in _PRIVATE:
-        return _PRIVATE["bin"]
-    import atexit
-    import json
-    import subprocess
-    hd = os.path.join(vlib.VERIF, "harness", ID)
-    repl = {}
-    for line in open(os.path.join(hd, "overlay.map")):
-        line = line.strip()
-        if line and not line.startswith("#"):
-            dest, src = line.split()
-            repl[os.path.join(vlib.REPO, dest)] = os.path.join(hd, src)
-    ov = os.path.join(vlib.BUILD, "overlay_C20_%d.json" % os.getpid())
-    binp = os.path.join(vlib.BUILD, "verif_c20_%d" % os.getpid())
-    json.dump({"Replace": repl}, open(ov, "w"))
-
-    def cleanup():
-        for f in (ov, binp):
-            try:
-                os.remove(f)
-            except OSError:
-                pass
-    atexit.register(cleanup)
-    p = subprocess.run(["go", "build", "-tags", "verif", "-overlay", ov, "-o", binp, "./" + DRIVER_PKG],
-                       cwd=vlib.REPO, env=vlib.goenv(), stdout=subprocess.PIPE, stderr=subprocess.STDOUT, text=True)
-    if p.returncode != 0:
-        raise vlib.BuildError(p.stdout)
-    _PRIVATE["bin"] = binp
-    return binp
-
-
 def run(binp, cases):
     """one driver process per 200 cases: bounds the memory of a driver (every store open maps a 128 MB memtable)"""
-    binp = private_build()
     env = {"VERIF_C20_WORKERS": os.environ.get("VERIF_C20_WORKERS", "2")}
     obs = []
     for i in range(0, len(cases), 200):
@@ -453,8 +427,9 @@ def tags(c, o):
     nr = sum(1 for x in c["ops"] if x["op"] == "r")
     ne = sum(1 for x in c["ops"] if x["op"] in "ix")
     sid = c.get("sid")
+    cfgtag = "backup-source-location=" + (c.get("bsl") or "unset")
     kind = "generated" if sid is None else ("numeric" if sid.isdigit() else ("empty" if sid == "" else "label/whitespace"))
     return ["backups=%d" % nb, "restarts=%d" % min(nr, 3), "prefilled=%s" % bool(c.get("foreign")),
-            "idfile-changes=%d" % min(ne, 3), "store-id=" + kind,
+            "idfile-changes=%d" % min(ne, 3), "store-id=" + kind, cfgtag,
             "outcome=" + str(o.get("outcome")), "len=%d" % min(len(c["ops"]), 12),
             "restore=" + ("none" if not o.get("hasrest") else ("equal" if o.get("richeq") else "differs"))]
